@@ -463,7 +463,17 @@ fn main() {
             inv_files.push(("macros_lib.rs".to_string(), file));
         }
     }
-    let inv_out = inv::emit(&inv_files);
+    // the cargo manifests (features, dependencies, profiles): pinned line by line
+    let mut cargo_rows = vec![];
+    for (label, rel) in [("workspace Cargo.toml", "../../Cargo.toml"), ("indextree/Cargo.toml", "../Cargo.toml"), ("indextree-macros/Cargo.toml", "../../indextree-macros/Cargo.toml")] {
+        let lines: Vec<String> = std::fs::read_to_string(format!("{}/{}", src, rel))
+            .map(|t| t.lines().map(|l| l.split_whitespace().collect::<Vec<_>>().join(" ")).filter(|l| !l.is_empty() && !l.starts_with('#'))
+                .filter(|l| !["keywords", "authors", "repository", "homepage", "documentation", "description", "categories", "readme", "license"].iter().any(|k| l.starts_with(&format!("{} =", k))))
+                .collect())
+            .unwrap_or_else(|_| vec!["<missing>".to_string()]);
+        cargo_rows.push((label.to_string(), lines));
+    }
+    let inv_out = inv::emit(&inv_files) + &inv::emit_rows("cargo", &cargo_rows);
     let inv_path = format!("{}/GenInventory.v", outdir);
     if std::fs::read_to_string(&inv_path).map(|old| old != inv_out).unwrap_or(true) {
         std::fs::write(&inv_path, inv_out).unwrap();
